@@ -63,9 +63,27 @@ def threatType : R SerFields := do
     let _unused ← bits 26
     pure (.ok [])
 
+/-- the fields of `ACASResolutionAdvisory` itself, in declaration order (`bds` and
+    `reserved_acas3` are `#[serde(skip)]`; the ten ARA/RAC options are skipped when `None`) -/
+def ownFields (issued : Bool)
+    (corrective downward increased reversal crossing positive noBelow noAbove noLeft noRight : Option Bool)
+    (terminated multiple : Bool) : Fields := [
+  fld (key! "issued_ra") (jbool issued),
+  optFlag (key! "corrective") corrective,
+  optFlag (key! "downward_sense") downward,
+  optFlag (key! "increased_rate") increased,
+  optFlag (key! "sense_reversal") reversal,
+  optFlag (key! "altitude_crossing") crossing,
+  optFlag (key! "positive") positive,
+  optFlag (key! "no_below") noBelow,
+  optFlag (key! "no_above") noAbove,
+  optFlag (key! "no_left") noLeft,
+  optFlag (key! "no_right") noRight,
+  fld (key! "terminated") (jbool terminated),
+  fld (key! "multiple") (jbool multiple) ]
+
 /-- `ACASResolutionAdvisory`: 8 + 1 + 6 + 7 + 4 + 1 + 1 + (2 + 26) = 56 bits.
-    serde: `tag = "bds", rename = "30"`; `bds` and `reserved_acas3` skipped; the ten ARA/RAC
-    options skipped when `None`; `threat_type` flattened (last). -/
+    serde: `tag = "bds", rename = "30"`; `threat_type` flattened (last). -/
 def read : R SerFields := do
   let b ← bits 8
   let _ ← R.lift (failIfNot30 b)
@@ -84,20 +102,8 @@ def read : R SerFields := do
   let terminated ← flag
   let multiple ← flag
   let tt ← threatType
-  let own : Fields := [
-    fld (key! "issued_ra") (jbool issued),
-    optFlag (key! "corrective") corrective,
-    optFlag (key! "downward_sense") downward,
-    optFlag (key! "increased_rate") increased,
-    optFlag (key! "sense_reversal") reversal,
-    optFlag (key! "altitude_crossing") crossing,
-    optFlag (key! "positive") positive,
-    optFlag (key! "no_below") noBelow,
-    optFlag (key! "no_above") noAbove,
-    optFlag (key! "no_left") noLeft,
-    optFlag (key! "no_right") noRight,
-    fld (key! "terminated") (jbool terminated),
-    fld (key! "multiple") (jbool multiple) ]
-  pure <| tagged (key! "bds") (key! "30") (tt.map fun fs => own ++ fs)
+  pure <| tagged (key! "bds") (key! "30") <| tt.map fun fs =>
+    ownFields issued corrective downward increased reversal crossing positive
+      noBelow noAbove noLeft noRight terminated multiple ++ fs
 
 end Rs1090.Model.Bds30
